@@ -11,7 +11,7 @@ from vf.runner import Acc, filler
 PROPERTY = "C15"
 CONCUR_FILES = ('bits/blockchain.py', 'bits/tx.py', 'bits/utils.py')
 # (thread a, thread b), warm-up: indices into seq_ops() - the ordinary single-case checks run concurrently (vf/concur.py)
-CONCUR_SCEN = [((3, 4), ()), ((3, 3), (1,)), ((8, 9), (7,)), ((5, 12), (10,))]
+CONCUR_SCEN = [((3, 4), ()), ((3, 3), (1,)), ((8, 9), (7,)), ((5, 12), (10,)), ((3, 4, 8), ())]   # the last one: three threads
 LEVEL = "exploration"
 RULE = ("merkle: EVERY list length 1..300 (thorough 1..2048) with distinct ids and with all-equal ids (the tree shape depends "
         "only on the length); coinbase: EVERY height 0..70000 on both halving schedules with default arguments, and the full "
@@ -216,7 +216,7 @@ def run_job(job):
         return run_concur_job(job, scens, run_case, PROPERTY, CONCUR_FILES)
     if job["part"] == "seq":
         from vf.runner import run_seq_job
-        return run_seq_job(job, seq_ops(job), run_case)
+        return run_seq_job(job, seq_ops(job), run_case, depth=3 if job["tier"] == "quick" else 4)
     acc = Acc(job)
     seed, tier, part = job["seed"], job["tier"], job["part"]
     if part == "merkle":
